@@ -36,6 +36,7 @@ fn main() {
         Some("worker") => driver::worker(&args[2..]),
         Some("one") => driver::one(&args[2..]),
         Some("replay") => driver::replay(&args[2..]),
+        Some("fingerprints") => driver::fingerprints(&args[2..]),
         Some("shrink") => shrink::shrink_cmd(&args[2..]),
         Some("list") => {
             for p in fw::registry() {
